@@ -248,6 +248,13 @@ def case_curve(loadcase, fam, name, rep):
                 run.compare("homogeneous.curve", "loadcase=%s family=%s clause=homogeneous-displacement" % (loadcase, fam), maxabs(u[geo] - uex[geo]) / max(maxabs(uex), 1e-300),
                             1e-7 + REG.get(name, 0.0), "%s: final displacement field is not the homogeneous stretch state" % label, unit="curve:%s:field" % loadcase)
             check_trace(run, mon.trace, label)
+            # the recorded curve is a record: it keeps the computed values when the field is used on (reset for the next job)
+            x_rec, y_rec = np.array(job.x, dtype=float, copy=True), np.array(job.y, dtype=float, copy=True)
+            field[0].fill(0)
+            run.compare("homogeneous.curve", "loadcase=%s clause=record-survives-field-reset" % loadcase,
+                        max(maxabs(np.array(job.x, dtype=float) - x_rec), maxabs(np.array(job.y, dtype=float) - y_rec)) / max(maxabs(x_rec), 1e-300), 0.0,
+                        "%s: the recorded displacements / forces of the job change when the field is reset afterwards" % label,
+                        unit="curve:record")
         finally:
             attach.detach_all()
     return fn
